@@ -75,6 +75,26 @@ func c06Json(ep string, b c06Body, shape string) (string, *c06Body) {
 	case "dup-keys":
 		// a decoy value first, the real one last: the last one wins
 		return "{" + `"username":"decoy",` + strings.Join(kv, ",") + "}", &dec
+	case "omit-empty", "only-target":
+		// keys with empty (zero) values are left out altogether - same meaning as writing them out;
+		// "only-target": nothing but the user name and the new values (no credential key at all)
+		var kv2 []string
+		for _, f := range fields {
+			if shape == "only-target" && (f == "session" || f == "oldpassword") {
+				switch f {
+				case "session":
+					dec.session = ""
+				case "oldpassword":
+					dec.old = ""
+				}
+				continue
+			}
+			if vals[f] == `""` || (f == "admin" && !b.admin) {
+				continue
+			}
+			kv2 = append(kv2, jstr(f)+":"+vals[f])
+		}
+		return "{" + strings.Join(kv2, ",") + "}", &dec
 	case "missing-username":
 		var kv2 []string
 		for _, f := range fields {
@@ -221,7 +241,7 @@ func runC06(em *vEmitter, r *vRng) {
 		nseq = 200
 	}
 	eps := []string{"authenticate", "add", "remove", "update", "set-admin", "list", "list-full"}
-	shapes := []string{"valid", "valid", "valid", "extra-unknown", "trailing-junk", "dup-keys", "missing-username", "null-username", "wrong-type", "not-json", "empty-body", "array", "empty-session"}
+	shapes := []string{"valid", "valid", "valid", "omit-empty", "omit-empty", "only-target", "extra-unknown", "trailing-junk", "dup-keys", "missing-username", "null-username", "wrong-type", "not-json", "empty-body", "array", "empty-session"}
 	for seq := 0; seq < nseq; seq++ {
 		ms := mNewStore("c06", r, 1)
 		ms.plant("root", true, 1, 1600000000, r.bytes(16), []byte("rootpw"), "")
@@ -310,6 +330,13 @@ func runC06(em *vEmitter, r *vRng) {
 				do("update", c06Body{session: tokens[cred], username: tgt, new: "sys" + strconv.Itoa(r.intn(1000))}, "valid")
 				do(mgmt[r.intn(len(mgmt))], c06Body{session: tokens[cred], username: tgt, password: "pwx", admin: r.intn(2) == 0}, "valid")
 			}
+		}
+		// a request that carries no credential key at all, right after an accepted one of the same kind
+		// (state kept between requests - pooled or cached request objects - must not lend it a credential)
+		for _, ep := range []string{"update", "add", "remove", "set-admin", "list", "list-full"} {
+			do(ep, c06Body{session: tokens["admin"], username: "bob", password: "carry", new: "carry" + strconv.Itoa(seq), admin: false}, "valid")
+			do(ep, c06Body{username: "alice", password: "stolen", new: "stolen" + strconv.Itoa(seq), admin: true}, "only-target")
+			do(ep, c06Body{new: "stolen2" + strconv.Itoa(seq)}, "only-target")
 		}
 		n := 45
 		for i := 0; i < n; i++ {
